@@ -190,6 +190,79 @@ def _run(prog, cfg, perturb_fusion=False):
     return out
 
 
+_CUSTOM = {}
+
+
+def _custom_syms():
+    """Two user-defined cyclic groups written the way a user would (a family that only overrides the modulus, hence the
+    same SYM_ID): used separately, never combined - each must get its own cached metadata."""
+    if not _CUSTOM:
+        import yastn
+
+        class sym_ZN(yastn.sym.sym_abelian):
+            SYM_ID = "ZN"
+            NSYM = 1
+            N = 2
+
+            @classmethod
+            def fuse(cls, charges, signatures, new_signature):
+                return np.mod(new_signature * (charges.swapaxes(1, 2) @ signatures), cls.N)
+
+        class sym_Z4(sym_ZN):
+            N = 4
+
+        class sym_Z5(sym_ZN):
+            N = 5
+        _CUSTOM.update({4: sym_Z4, 5: sym_Z5})
+    return _CUSTOM
+
+
+def _custom_run(N, blocks, kw):
+    """fuse / unfuse / svd / tensordot where the group law (mod N) decides the fused charges."""
+    import yastn
+    cfg = yastn.make_config(sym=_custom_syms()[N], **kw)
+    a = yastn.Tensor(config=cfg, s=(1, 1, -1, -1), n=0)
+    for ts, Ds, val in blocks:
+        if (ts[0] + ts[1] - ts[2] - ts[3]) % N == 0:
+            a.set_block(ts=ts, Ds=Ds, val=val)
+    out = [raw(a)]
+    f = a.fuse_legs(axes=((0, 1), (2, 3)), mode="hard")
+    out.append(raw(f))
+    out.append(raw(f.unfuse_legs(axes=(0, 1))))
+    U, S, V = yastn.svd(a, axes=((0, 1), (2, 3)))
+    out += [raw(S), raw(U @ S @ V)]
+    out.append(raw(yastn.tensordot(a, a, axes=((2, 3), (0, 1)))))
+    out.append(raw(yastn.tensordot(f, f.conj(), axes=(1, 1))))
+    return out
+
+
+def custom_sym_twins(ctx, rng, nprng, kw):
+    import yastn
+    Dl = {c: rng.randint(1, 2) for c in range(4)}
+    blocks = []
+    for ts in __import__("itertools").product(range(4), repeat=4):
+        if rng.random() < 0.5:
+            Ds = tuple(Dl[c] for c in ts)
+            blocks.append((ts, Ds, nprng.standard_normal(Ds)))
+    try:
+        yastn.set_cache_maxsize(0)
+        cold = {N: _custom_run(N, blocks, kw) for N in (4, 5)}
+        yastn.set_cache_maxsize(1024)
+        yastn.clear_cache()
+        first, second = (4, 5) if rng.random() < 0.5 else (5, 4)
+        _custom_run(first, blocks, kw)
+        warm = _custom_run(second, blocks, kw)
+    finally:
+        yastn.set_cache_maxsize(1024)
+    ctx.count("custom_symmetry_twins")
+    ctx.count("histories_compared")
+    if warm != cold[second]:
+        k = next(i for i, (x, y) in enumerate(zip(cold[second], warm)) if x != y)
+        ctx.violation("cache-history-dependence:custom-symmetry-twin",
+                      f"user-defined Z{second} tensor: result {k} of fuse/unfuse/svd/tensordot differs from the cold run after the same "
+                      f"operations ran on its Z{first} twin (same struct and slices, same SYM_ID)")
+
+
 def twin_case(ctx, idx):
     import yastn
     rng, nprng = ctx.rng(idx, "twin"), ctx.nprng(idx, "twin")
@@ -203,6 +276,7 @@ def twin_case(ctx, idx):
     policy = rng.choice(("fuse_to_matrix", "fuse_contracted", "no_fusion"))
     fusion = rng.choice(("hard", "meta"))
     kw = {"tensordot_policy": policy, "default_fusion": fusion}
+    custom_sym_twins(ctx, ctx.rng(idx, "custom"), ctx.nprng(idx, "custom"), kw)
     seedstate = rng.getstate()
     progs = {}
     try:
